@@ -688,6 +688,22 @@ theorem runPolls_mon (n : Nat) (ts : List Bool) (s : St) (r : Role) (h : mon s.l
         have := ih rest (s.emit (.term false)) (mon_term_conn h false)
         exact ⟨this.1, by have := this.2; simp only [runPolls, List.length_cons] at *; omega⟩
 
+/-- the run loop asks `terminate()` once per turn, one turn more than the peer answers exchanges -
+it is the bounded poll loop of the scripted stand-in, whatever the traffic (`busy` flags) is -/
+theorem runLoop_eq (l : List Bool) (ts : List Bool) (s : St) : runLoop l ts s = runPolls (l.length + 1) ts s := by
+  induction l generalizing ts s with
+  | nil =>
+    cases ts with
+    | nil => rfl
+    | cons b r => cases b <;> simp [runLoop, runPolls]
+  | cons a l ih =>
+    cases ts with
+    | nil => rfl
+    | cons b r =>
+      cases b with
+      | true => simp [runLoop, runPolls]
+      | false => simp only [runLoop, List.length_cons, runPolls]; exact ih r _
+
 /-- what a `_xxx_connect` step leaves behind -/
 def StepPost (r : Py RetVal) (q' : Q) : Prop :=
   match r with
